@@ -146,42 +146,8 @@ theorem C20_stab_count {K : Type} (Fn : Mat (Option K)) (Lab : Mat Int) (step : 
     · cases h2 : Fn.e r c <;> simp [h1, h2, ih]
     · simp [h1, ih]
 
-/-- **Ordinate = order accepted by extraction, `step = 1`** (the only value the classes can
-    use: `pLSCF.plot_stab` and `SelFromPlot` hard-code 1, the SSI classes raise for any other).
-    For every drawn marker `(x, y)` of label `v`, the column `Fn_pol[:, y]` that
-    `SSI_mpe`/`pLSCF_mpe` read for `order = y` exists and contains that pole with that label.
-    *Partial*: for `step ≠ 1` the statement is false (`C20_stab_order_step_counterexample`):
-    `stab_plot` draws column `c` at `c·step` while the extraction functions index columns. -/
-theorem C20_stab_order_mpe_partial {K : Type} (Fn : Mat (Option K)) (Lab : Mat Int) (v : Int)
-    (x : K) (y : Nat) (h : (x, y) ∈ finiteX (stabXY Fn Lab 1 v)) :
-    ∃ col, mpeColumn Fn y = some col ∧
-      ∃ r, r < Fn.r ∧ col[r]? = some (some x) ∧ Lab.e r y = v := by
-  rw [C20_stab_label] at h
-  unfold stabSpec at h
-  obtain ⟨c, hc, h⟩ := List.mem_flatMap.mp h
-  obtain ⟨r, hr, h⟩ := List.mem_filterMap.mp h
-  have hc' := List.mem_range.mp hc
-  have hr' := List.mem_range.mp hr
-  by_cases hl : Lab.e r c = v
-  · rw [if_pos hl] at h
-    cases hf : Fn.e r c with
-    | none => rw [hf] at h; simp at h
-    | some z =>
-      rw [hf] at h
-      simp only [Option.map_some, Option.some.injEq, Prod.mk.injEq, Nat.mul_one] at h
-      obtain ⟨h1, h2⟩ := h
-      subst h1; subst h2
-      refine ⟨(List.range Fn.r).map fun i => Fn.e i c, by simp [mpeColumn, hc'], r, hr', ?_, hl⟩
-      simp [hr', hf]
-  · rw [if_neg hl] at h; simp at h
-
-/-- the hypothesis `step = 1` is necessary: a 1×3 table, `step = 2`; the pole 5 of column 1 is
-    drawn at height 2, and `Fn_pol[:, 2]` holds the pole 7. -/
-theorem C20_stab_order_step_counterexample :
-    let Fn : Mat (Option Nat) := ⟨1, 3, fun _ c => if c = 0 then none else if c = 1 then some 5 else some 7⟩
-    let Lab : Mat Int := ⟨1, 3, fun _ _ => 1⟩
-    (5, 2) ∈ finiteX (stabXY Fn Lab 2 1) ∧ mpeColumn Fn 2 = some [some 7] := by
-  decide
+-- `C20_stab_order_mpe_partial`, `C20_stab_order_step_counterexample` (ordinate = order accepted by extraction) are in
+-- `Props/C20Extract.lean`, stated over C11's extraction models `ssiMpe` / `plscfMpe`.
 
 /-- **C20, cluster diagram.** For equally shaped tables the markers with both coordinates
     finite are exactly `{(Fn[r,c], Xi[r,c]) | Lab[r,c] = v, both ≠ NaN}`, each once — the same
